@@ -113,12 +113,14 @@ def parse_form(s):
         return (mkstr(k[1], n), mkstr(k[2], v))
     if k[0] == '3':
         # third element: f/t = False/True, n = None, 0 / 1 = the ints (falsy / truthy non-bool marks)
-        flag = {'f': False, 't': True, 'n': None, '0': 0, '1': 1}[k[1]]
+        flag = {'f': False, 't': True, 'n': None, '0': 0, '1': 1, 'y': 'yes', '2': 2, 'e': ''}[k[1]]
         return (mkstr(k[2], n), mkstr(k[3], v), flag)
     if k[0] == 'H':
         return HeaderTuple(mkstr(k[1], n), mkstr(k[2], v))
     if k[0] == 'N':
         return NeverIndexedHeaderTuple(mkstr(k[1], n), mkstr(k[2], v))
+    if k[0] == 'X':      # malformed header: a 1-tuple (header[1] raises IndexError inside encode)
+        return (mkstr(k[1], n),)
     if k[0] == 'T':      # application subclass of HeaderTuple
         return AppHeader(mkstr(k[1], n), mkstr(k[2], v))
     if k[0] == 'S':      # application subclass of NeverIndexedHeaderTuple
